@@ -54,6 +54,9 @@ func bases() []base {
 	add("zero-window-overshoot", tcpx.Scenario{Bytes: [2]int{20000, 0}, RcvBuf: [2]int{0, 4096}, PauseRead: [2]int{1, 0}, PauseMs: [2]int{3000, 0}, MaxChunk: [2]int{1000, 0}, Close: "AB"})
 	add("zero-window-reverse", tcpx.Scenario{Bytes: [2]int{0, 30000}, RcvBuf: [2]int{4096, 0}, PauseRead: [2]int{0, 1}, PauseMs: [2]int{0, 2000}, Close: "BA"})
 	add("zero-window-both", tcpx.Scenario{Bytes: [2]int{15000, 15000}, RcvBuf: [2]int{4096, 4096}, PauseRead: [2]int{1, 1}, PauseMs: [2]int{1500, 2500}, Close: "sim"})
+	// the same with receive buffers large enough for the stack to scale its own window
+	add("zero-window-scaled", tcpx.Scenario{Bytes: [2]int{400000, 0}, RcvBuf: [2]int{0, 100000}, PauseRead: [2]int{1, 0}, PauseMs: [2]int{3000, 0}, Close: "AB"})
+	add("zero-window-scaled-reverse", tcpx.Scenario{Bytes: [2]int{0, 700000}, RcvBuf: [2]int{262144, 0}, PauseRead: [2]int{0, 1}, PauseMs: [2]int{0, 2000}, MaxChunk: [2]int{0, 3000}, Close: "BA"})
 	add("v6-cubic-xfer", tcpx.Scenario{Bytes: [2]int{30000, 30000}, V6: true, Close: "sim"})
 	return out
 }
